@@ -7930,3 +7930,141 @@ func ruleCacheGen(prop string) ruleFn {
 		}
 	}
 }
+
+// MARSHAL-PURE (C12, C04): rendering a value does not change it.
+func ruleMarshalPure(prop string) ruleFn {
+	return func(w *World, r *Report) {
+		r.Rule("MARSHAL-PURE", "encoding/json calls a value's MarshalJSON by reflection, wherever that value sits in what is rendered — the work of an event carries the cached rule that every event which finds it shares (SHARED-WRITE follows static calls only and does not see this one).  No MarshalJSON / MarshalYAML / String method of rulio with a pointer receiver writes through its receiver", 1)
+		m := newModEngine(w, func(f *ssa.Function) bool { return w.IsRulio(f) })
+		n := 0
+		for _, fn := range w.Funcs {
+			if !w.IsRulio(fn) || isTestFile(w, fn) || fn.Signature.Recv() == nil {
+				continue
+			}
+			switch fn.Name() {
+			case "MarshalJSON", "MarshalYAML", "String":
+			default:
+				continue
+			}
+			if _, ptr := fn.Signature.Recv().Type().(*types.Pointer); !ptr {
+				continue
+			}
+			n++
+			key := "fn=" + fname(fn)
+			if mut, where := m.mutatesParam(fn, 0); mut {
+				r.violation("MARSHAL-PURE", key, w.Pos(fn.Pos()), "this renderer writes through its receiver ("+where+"): rendering the work of an event writes into the cached rule that concurrent events share")
+			} else {
+				r.ok("MARSHAL-PURE", key, w.Pos(fn.Pos()), "renders without writing through its receiver")
+			}
+		}
+		if n == 0 {
+			r.exempt("MARSHAL-PURE", "pkg=core", "", "no renderer with a pointer receiver found: not decided")
+		}
+	}
+}
+
+// RAND-GUARD (C13, C04): no random pick from nothing.
+func ruleRandGuard(prop string) ruleFn {
+	return func(w *World, r *Report) {
+		r.Rule("RAND-GUARD", "math/rand.Intn(n) panics for n <= 0.  Where n is the length of something that configuration or a request supplies (the URL list of a service in a location's Control), the call is control-dependent on a test of that length: the panic would not be in the script engine, where panics are caught, but in the Go function the script called — with concurrent actions it takes the process down", 1)
+		n := 0
+		for _, fn := range w.Funcs {
+			if !w.IsRulio(fn) || isTestFile(w, fn) {
+				continue
+			}
+			if p := w.RelPkg(fn); p != "core" && p != "sys" && p != "service" && p != "cron" {
+				continue
+			}
+			if strings.HasSuffix(w.Prog.Fset.Position(fn.Pos()).Filename, "factgen.go") {
+				continue // the generator of test data: its arguments are constants plus one
+			}
+			allInstrs(fn, func(in ssa.Instruction) {
+				c := callOf(in)
+				if c == nil || c.StaticCallee() == nil || c.StaticCallee().Pkg == nil || c.StaticCallee().Pkg.Pkg.Path() != "math/rand" {
+					return
+				}
+				switch c.StaticCallee().Name() {
+				case "Intn", "Int63n", "Int31n":
+				default:
+					return
+				}
+				if len(c.Args) != 1 {
+					return
+				}
+				if _, isConst := c.Args[0].(*ssa.Const); isConst {
+					return
+				}
+				n++
+				key := "fn=" + fname(fn)
+				// the thing whose length it is
+				var of ssa.Value
+				dependsOn(c.Args[0], func(v ssa.Value) bool {
+					if cc, ok := v.(*ssa.Call); ok {
+						if b, ok := cc.Common().Value.(*ssa.Builtin); ok && b.Name() == "len" && len(cc.Common().Args) == 1 {
+							of = cc.Common().Args[0]
+							return true
+						}
+					}
+					return false
+				})
+				guarded := controlDependsOn(fn, in, func(v ssa.Value) bool {
+					b, ok := v.(*ssa.BinOp)
+					if !ok {
+						return false
+					}
+					switch b.Op {
+					case token.LSS, token.LEQ, token.GTR, token.GEQ, token.EQL, token.NEQ:
+					default:
+						return false
+					}
+					isLen := func(x ssa.Value) bool {
+						return dependsOn(x, func(y ssa.Value) bool {
+							if cc, ok := y.(*ssa.Call); ok {
+								if bb, ok := cc.Common().Value.(*ssa.Builtin); ok && bb.Name() == "len" && len(cc.Common().Args) == 1 {
+									return of == nil || cc.Common().Args[0] == of
+								}
+							}
+							return y == c.Args[0]
+						})
+					}
+					return isLen(b.X) || isLen(b.Y)
+				})
+				if guarded {
+					r.ok("RAND-GUARD", key, w.PosOf(in), "the pick is made behind a test of the length")
+				} else {
+					r.violation("RAND-GUARD", key, w.PosOf(in), "a random pick from a list that can be empty: rand.Intn(0) panics (a service with an empty URL list in the location's Control)")
+				}
+			})
+		}
+		if n == 0 {
+			r.ok("RAND-GUARD", "pkg=core", "", "no random pick over a run-time length")
+		}
+	}
+}
+
+// CODE-RESULT-MAP (C03): what a script gives back as bindings is taken as bindings.
+func ruleCodeResultMap(w *World, r *Report) {
+	r.Rule("CODE-RESULT-MAP", "CodeQuery.Exec merges an object that the script returns into the bindings (`case map[string]interface{}`).  A script that returns one of its own bindings gives back what it was given: the event arrives as a core.Map and comes back as one.  The result is therefore also tested for core.Map (a case, or a conversion in front of the switch); otherwise `{\"code\":\"event\"}` keeps the incoming bindings and merges nothing, where the same object built in the script merges", 1)
+	fn := w.Method("core", "CodeQuery", "Exec")
+	key := "fn=" + fname(fn)
+	run := w.Func("core", "RunJavascript")
+	have := assertedTypes(fn, func(v ssa.Value) bool {
+		c, ok := v.(*ssa.Call)
+		return ok && c.Common().StaticCallee() == run
+	})
+	generic := have["map[string]interface{}"]
+	mapT := false
+	for t := range have {
+		if strings.HasSuffix(t, "/core.Map") || t == "core.Map" {
+			mapT = true
+		}
+	}
+	switch {
+	case !generic:
+		r.exempt("CODE-RESULT-MAP", key, w.Pos(fn.Pos()), "the result of the script is not tested for map[string]interface{}: shape not recognised, not decided")
+	case mapT:
+		r.ok("CODE-RESULT-MAP", key, w.Pos(fn.Pos()), "both map types are merged")
+	default:
+		r.violation("CODE-RESULT-MAP", key, w.Pos(fn.Pos()), "a core.Map that the script returns (the event it was given, say) is not merged into the bindings")
+	}
+}
